@@ -37,7 +37,7 @@ def floors(ctx):
          "input_probes": 300}
     for acc in ("links", "vertices", "u_vertices", "universes", "neighbors", "find_links", "bft", "dft_recursive",
                 "dft_iterative", "ibft", "edge_whitelist"):
-        for mode in ("off", "cold", "warm"):
+        for mode in ("off", "cold", "warm", "off_then_on"):
             if acc in ("neighbors", "bft", "dft_recursive", "dft_iterative", "ibft") or mode == "off":
                 f[f"probe:{acc}:{mode}"] = 5
     return f
@@ -190,7 +190,7 @@ def probe_returned(ctx, pool, rng, history):
     vs = [o for o in pool.objs.values() if isinstance(o, Vertex)]
     foreign_pool = vs + [o for o in pool.objs.values() if isinstance(o, Link)] + ["foreign"]
     for acc, thunk in accessors(pool, rng):
-        for mode in ("off", "cold", "warm"):
+        for mode in ("off", "cold", "warm", "off_then_on"):
             if mode != "off" and acc not in ("neighbors", "bft", "dft_recursive", "dft_iterative", "ibft", "find_links"):
                 continue
             first = oracles.outcome(thunk)
@@ -200,7 +200,7 @@ def probe_returned(ctx, pool, rng, history):
             muts = LIST_MUTS if isinstance(cont0, (list, tuple)) else SET_MUTS if isinstance(cont0, (set, frozenset)) else MAP_MUTS
             kind = rng.choice(muts)
             foreign = rng.choice(foreign_pool)
-            Vertex.NEIGHBOR_CACHING = mode != "off"
+            Vertex.NEIGHBOR_CACHING = mode not in ("off", "off_then_on")
             try:
                 if mode == "cold":
                     # make sure no entry exists yet for any vertex: touch every vertex through a public mutator
@@ -227,6 +227,8 @@ def probe_returned(ctx, pool, rng, history):
                     if canon(pool, cont) != before:
                         ctx.count("mutation_took_effect_on_copy")
                 state1 = full_state(pool)
+                if mode == "off_then_on":
+                    Vertex.NEIGHBOR_CACHING = True
                 r2 = oracles.outcome(thunk)
                 after = canon(pool, r2[1]) if r2[0] == "ok" else ("raised", r2[1].__name__)
                 case = {"kind": "returned", "ops": history, "accessor": acc, "mutation": kind, "mode": mode}
@@ -329,6 +331,15 @@ def probe_inputs(ctx, rng):
         return UniverseLaws(edge_whitelist=wl), [("edge_whitelist", wl)]
 
     check("UniverseLaws", b_laws, lambda: [("edge_whitelist", None, MAP_MUTS)],
+          lambda w: {repr(k): sorted(map(repr, v.items())) for k, v in w.edge_whitelist.items()})
+
+    def b_laws_proxy():
+        import types
+
+        wl = {Vertex: {Vertex: DirectedEdge}, Universe: {Vertex: UnDirectedEdge}}
+        return UniverseLaws(edge_whitelist=types.MappingProxyType(wl)), [("edge_whitelist", wl)]
+
+    check("UniverseLaws", b_laws_proxy, lambda: [("edge_whitelist", None, MAP_MUTS)],
           lambda w: {repr(k): sorted(map(repr, v.items())) for k, v in w.edge_whitelist.items()})
 
     def b_laws_empty():
